@@ -106,6 +106,8 @@ type Engine struct {
 	// establishes them or is reported) and that therefore hold on entry; only requirements over
 	// the parameters' own values and lengths (nothing loaded from memory)
 	entry map[*ssa.Function][]Ineq
+	// affine: result summaries (see affineSummary)
+	affine map[[2]interface{}]*affineSum
 }
 
 func New(p *model.Prog) *Engine {
@@ -542,6 +544,15 @@ func (e *Engine) Enumerate(fn *ssa.Function) []*Obligation {
 				ob := &Obligation{Fn: fn, Instr: in, Kind: "slice", Expr: expr, Goals: goals, Trivial: triv}
 				out = append(out, ob)
 			case *ssa.BinOp:
+				// an unsigned difference that sizes a read, an allocation or a slice must not wrap
+				if x.Op == token.SUB && isUnsigned(x.Type()) && sizeOf(x.Type()) >= 4 {
+					_, kx := constInt(x.X)
+					_, ky := constInt(x.Y)
+					if !(kx && ky) && e.reachesSizeSink(x, 0, map[ssa.Value]bool{}) {
+						a, b := c.lin(x.X), c.lin(x.Y)
+						add(in, "usub", "difference "+a.String()+" - ("+b.String()+")", Ineq{a.Sub(b), "unsigned difference does not wrap"})
+					}
+				}
 				if (x.Op == token.QUO || x.Op == token.REM) && isInteger(x.Type()) {
 					if _, isK := constInt(x.Y); !isK {
 						dv := x.Y
@@ -710,6 +721,15 @@ func libraryRequires(c *fnCtx, ci ssa.CallInstruction) []Ineq {
 	if f.Pkg != nil && f.Pkg.Pkg.Path() == "strings" && f.Name() == "Repeat" {
 		return []Ineq{{c.lin(com.Args[1]), "strings.Repeat needs count>=0"}}
 	}
+	// naza's growable buffer: ReserveBytes(n) slices [:n] and Grow(n) sizes an allocation
+	if strings.HasSuffix(recv, "naza/pkg/nazabytes.Buffer") && len(com.Args) == 2 {
+		switch f.Name() {
+		case "ReserveBytes", "Grow":
+			if _, isK := constInt(com.Args[1]); !isK {
+				return []Ineq{{c.lin(com.Args[1]), f.Name() + " needs n>=0"}}
+			}
+		}
+	}
 	return nil
 }
 
@@ -773,6 +793,15 @@ func (e *Engine) substitute(c *fnCtx, g Ineq, callee *ssa.Function, site ssa.Cal
 			}
 			// interface receivers (invoke) carry the concrete pointer: keep the value as root
 			term = Var(Atom{Kind: a.Kind, Root: root, Path: full})
+			// the caller itself stores that field: the path is no atom here, but a load of it that
+			// reaches the call unchanged stands for it
+			if a.Kind == 'v' {
+				if siteIn, isIn := site.(ssa.Instruction); isIn {
+					if l := c.loadOfPathAt(root, full, siteIn); l != nil {
+						term = c.lin(l)
+					}
+				}
+			}
 		}
 		out = out.Add(term.Scale(coef))
 	}
@@ -1092,6 +1121,86 @@ func (e *Engine) Run(roots map[*ssa.Function]bool) {
 		}
 	}
 	e.Obs = all
+}
+
+// reachesSizeSink: v (an integer) is used, possibly through conversions, merges and a
+// min/max-style clamp, as the length of an allocation, a slice bound, an index, or the size
+// argument of a buffer-growing call (nazabytes.Buffer / rtmp.Buffer Grow, ReserveBytes, Flush,
+// Skip), directly, as the parameter of a lal function that uses it so, or as the single result
+// of its function used so by a caller.
+func (e *Engine) reachesSizeSink(v ssa.Value, depth int, seen map[ssa.Value]bool) bool {
+	if seen[v] || depth > 6 || v.Referrers() == nil {
+		return false
+	}
+	seen[v] = true
+	for _, ref := range *v.Referrers() {
+		switch r := ref.(type) {
+		case *ssa.MakeSlice:
+			if r.Len == v || r.Cap == v {
+				return true
+			}
+		case *ssa.Slice:
+			if r.Low == v || r.High == v || r.Max == v {
+				return true
+			}
+		case *ssa.IndexAddr:
+			if r.Index == v {
+				return true
+			}
+		case *ssa.Index:
+			if r.Index == v {
+				return true
+			}
+		case *ssa.Convert:
+			if isInteger(r.Type()) && e.reachesSizeSink(r, depth+1, seen) {
+				return true
+			}
+		case *ssa.ChangeType:
+			if e.reachesSizeSink(r, depth+1, seen) {
+				return true
+			}
+		case *ssa.Phi:
+			if e.reachesSizeSink(r, depth+1, seen) {
+				return true
+			}
+		case *ssa.Return:
+			// the value is a result: continue in the callers with the call's value
+			if depth >= 4 || len(r.Results) != 1 {
+				continue
+			}
+			for _, ed := range e.P.Callers(r.Parent()) {
+				if ed.Site == nil || ed.Site.Value() == nil {
+					continue
+				}
+				if e.reachesSizeSink(ed.Site.Value(), depth+3, seen) {
+					return true
+				}
+			}
+		case ssa.CallInstruction:
+			ce := r.Common().StaticCallee()
+			if ce == nil {
+				continue
+			}
+			args := r.Common().Args
+			for k, a := range args {
+				if a != v {
+					continue
+				}
+				switch ce.Name() {
+				case "Grow", "ReserveBytes", "Flush", "Skip", "Truncate":
+					if ce.Signature.Recv() != nil && strings.HasSuffix(ce.Signature.Recv().Type().String(), "Buffer") {
+						return true
+					}
+				}
+				if ce.Blocks != nil && k < len(ce.Params) && depth < 2 && (model.IsLal(ce) || model.IsNaza(ce)) {
+					if e.reachesSizeSink(ce.Params[k], depth+4, seen) {
+						return true
+					}
+				}
+			}
+		}
+	}
+	return false
 }
 
 // pureParam: the form mentions only the values, lengths and capacities of parameters (nothing
@@ -1633,7 +1742,34 @@ func (e *Engine) strengthenToParams(c *fnCtx, g Ineq) (Ineq, bool) {
 		case coef < 0 && hi != nil:
 			out = out.Add(Const(coef * *hi))
 		default:
-			return Ineq{}, false
+			// a bound that is itself a form over the parameters (the result of a helper that
+			// adds a bounded amount to one of its arguments)
+			var form *Lin
+			for _, d := range c.defFacts(a) {
+				k, isA := d.L.C[a]
+				if !isA || len(d.L.C) < 2 || (k != 1 && k != -1) || !strings.HasSuffix(d.Why, "(every return)") {
+					continue
+				}
+				other := d.L.Clone()
+				delete(other.C, a)
+				if !paramRooted(c.fn, other) {
+					continue
+				}
+				if coef > 0 && k == 1 { // a >= -other
+					f := other.Scale(-1)
+					form = &f
+				} else if coef < 0 && k == -1 { // a <= other
+					f := other
+					form = &f
+				}
+				if form != nil {
+					break
+				}
+			}
+			if form == nil {
+				return Ineq{}, false
+			}
+			out = out.Add(form.Scale(coef))
 		}
 		changed = true
 	}
